@@ -62,7 +62,7 @@ out.append('### 8.1 Hand-mutation probes\n')
 out.append('The seeds test one breakage per agent run. In between, the anchored functions of a property were mutated by hand, ten or so mutants at a time '
            '(`tools/mut_probe.py <spec.json> <ids>`: each edit is analysed through the VFS overlay, /repo is not touched), and every silent mutant was read: a mutant that '
            'changes behaviour got a rule and became a self-test variant; a mutant that turned out to preserve behaviour became a *neutral* variant, which the checks must '
-           'keep silent on. Probed so far: C03 C04 C05 C06 C07 C08 C09 C10 C11 C12 C13 C14 C16 C17 C18 C19 C20 C21 C23 C24 C25 C28 C30 C31 C32 C35 C36 C37 C39 C41 C43 C45 C46 C47 C48 C49 (per-property notes in §3). The largest gaps were '
+           'keep silent on. Probed so far: C01 C02 C03 C04 C05 C06 C07 C08 C09 C10 C11 C12 C13 C14 C16 C17 C18 C19 C20 C21 C23 C24 C25 C27 C28 C30 C31 C32 C35 C36 C37 C39 C41 C43 C45 C46 C47 C48 C49 (per-property notes in §3). The largest gaps were '
            'C16 (13 of 14 silent: the check only looked at the extremum updates), C20 (11 of 14), C24 (8 of 8 on what add_route stores for a symmetrical route); the '
            'synchronisation objects C04-C09 and C12 had 1 to 4 gaps each. Two engine-level weaknesses also surfaced: a local reference to a queue was reported as an escape '
            '(now resolved by the normaliser), and `erase(first, last)` was counted like `erase(it)`. `tools/neutral_shift.py` re-decides every check with each loaded file '
